@@ -14,12 +14,15 @@ import (
 	"math/big"
 	"testing"
 
+	"github.com/ontio/ontology/common"
 	"github.com/ontio/ontology/common/config"
 	"github.com/ontio/ontology/core/payload"
 	"github.com/ontio/ontology/core/states"
 	"github.com/ontio/ontology/core/store/overlaydb"
 	"github.com/ontio/ontology/core/types"
+	cutils "github.com/ontio/ontology/core/utils"
 	"github.com/ontio/ontology/smartcontract/event"
+	nutils "github.com/ontio/ontology/smartcontract/service/native/utils"
 	"github.com/ontio/ontology/smartcontract/service/neovm"
 	"github.com/ontio/ontology/smartcontract/storage"
 	vm "github.com/ontio/ontology/vm/neovm"
@@ -125,10 +128,19 @@ func cnPushDeployParams(b *vm.ParamsBuilder, dc *payload.DeployCode) {
 }
 
 func (w *cnWorld) script(tx *cnTx) []byte {
-	b := vm.NewParamsBuilder(new(bytes.Buffer))
+	raw := new(bytes.Buffer)
+	b := vm.NewParamsBuilder(raw)
 	for _, a := range tx.Acts {
 		switch a.Name {
-		case "ContractPut":
+		case "MarkDestroyed":
+			// native global-param addDestroyedContract, signed by the operator (= the genesis bookkeeper)
+			addr := w.deployCode(a.C).Address()
+			piece, err := cutils.BuildNativeInvokeCode(nutils.ParamContractAddress, 0, "addDestroyedContract",
+				[]interface{}{[]common.Address{addr}})
+			vhMust(err)
+			raw.Write(piece)
+			b.Emit(vm.DROP)
+		case "ContractPut", "PutRefused":
 			k := w.in.KeySeq[a.K-1]
 			var suffix []byte
 			for _, x := range k[1:] {
